@@ -41,7 +41,15 @@ def _write_if_changed(path, text):
     return True
 
 
-def regen():
+def regen(locked=False):
+    """`locked=True` when the caller already holds Lock("c03-check") (the check does); otherwise
+    (tools/regen.py, setup) the lock is taken here, so that a regeneration from /repo cannot slip
+    in between a running check's own regeneration (possibly from a VERIF_REPO copy) and its
+    Lean build."""
+    if not locked:
+        from verifkit.core import Lock
+        with Lock("c03-check"):
+            return regen(locked=True)
     os.makedirs(C03_WORK, exist_ok=True)
     binary, err = build_go("xmaprange", "extract/xmaprange")
     if binary is None:
